@@ -71,8 +71,18 @@ def lattice(tier, with_cov):
     mpc = [0.0, 0.5, 0.99]
     mpd = [0.01, 0.3, HALF_PI]
     cov = [1e-6, 1e6] if with_cov else [1e-6]
-    return [dict(conj=c, xi_max=x, mpc_lim=a, mpd_lim=b, cov_max=v)
-            for c, x, a, b, v in itertools.product(conj, xi_max, mpc, mpd, cov)]
+    out = [dict(conj=c, xi_max=x, mpc_lim=a, mpd_lim=b, cov_max=v)
+           for c, x, a, b, v in itertools.product(conj, xi_max, mpc, mpd, cov)]
+    # the ends of the stated ranges (mpc_lim in [0, 1], mpd_lim in [0, pi/2], xi_max in (0, 1]): every criterion once at its
+    # most restrictive legal value with the others neutral, and all of them together
+    ends = [dict(conj=False, xi_max=1.0, mpc_lim=0.0, mpd_lim=0.0), dict(conj=False, xi_max=1.0, mpc_lim=1.0, mpd_lim=HALF_PI),
+            dict(conj=True, xi_max=1.0, mpc_lim=1.0, mpd_lim=0.0), dict(conj=True, xi_max=1e-3, mpc_lim=0.0, mpd_lim=HALF_PI)]
+    for e in ends:
+        for v in cov:
+            h = dict(e, cov_max=v)
+            if h not in out:
+                out.append(h)
+    return out
 
 
 # ---------------------------------------------------------------------------------------------
@@ -414,11 +424,23 @@ def get_setup(kind, seed, which, rec=None):
     return s
 
 
+def _rotated(d):
+    """Same mapping, keys inserted in an order that rotates with the criteria values (a dict is a mapping: the order in which
+    the user writes the hard-criteria keys must not matter)."""
+    keys = list(d)
+    k = (int(bool(d.get("conj"))) + int(round(10 * d.get("xi_max", 0))) + int(round(100 * d.get("mpc_lim", 0))) + len(keys)) % len(keys)
+    keys = keys[k:] + keys[:k]
+    if k % 2:
+        keys.reverse()
+    return {key: d[key] for key in keys}
+
+
 def make_alg(variant, hc, which):
     import pyoma2.algorithms as algs
 
     vname, cname, kind, family, with_cov = variant
     cls = getattr(algs, cname)
+    hc = _rotated(hc)
     if family == "ssi":
         if which == "A":
             return cls(name="a", br=2, ordmax=ORDMAX_A, hc=dict(hc))
@@ -604,7 +626,7 @@ def explore(ctx):
                         else "2 pole pairs in each of the two orders (every assignment: 7^4 / 8^4 tables)"),
             "tables": {"without_cov": len(tabs[False]), "with_cov": len(tabs[True])},
             "criteria_lattice": {"conj": [True, False], "xi_max": sorted({h["xi_max"] for h in lat[False]}),
-                                 "mpc_lim": [0.0, 0.5, 0.99], "mpd_lim": [0.01, 0.3, HALF_PI], "cov_max (cov variants)": [1e-6, 1e6],
+                                 "mpc_lim": [0.0, 0.5, 0.99, "1.0 (range end)"], "mpd_lim": ["0.0 (range end)", 0.01, 0.3, HALF_PI], "xi_max range end": 1e-3, "cov_max (cov variants)": [1e-6, 1e6],
                                  "points": {"without_cov": len(lat[False]), "with_cov": len(lat[True])}},
         },
         "driver_B": {"records": nrec, "samples": B_N, "fs": FS_B, "ssi": {"br": B_BR, "ordmax": B_ORDMAX_SSI, "nb": B_NB},
